@@ -1451,7 +1451,8 @@ def extract_closure(src, spec, unit_rules):
         inner += ("" if inner.endswith(";") or inner.endswith("}") else ";") + "\n" + spec["tail"]
     for v in spec.get("deref", []):
         # a captured variable that the method receives as `&mut T`: every use becomes `(*v)`
-        inner = re.sub(r"(?<![\w\.])" + re.escape(v) + r"\b", f"(*{v})", inner)
+        # every use of the variable (not a field `.v`, but `..v` of a range is a use)
+        inner = re.sub(r"(?<!\w)(?<!(?<!\.)\.)" + re.escape(v) + r"\b", f"(*{v})", inner)
     contract = clause("requires", spec.get("requires")) + clause("ensures", spec.get("ensures"))
     ret = spec.get("ret", "r")
     text = (
